@@ -118,4 +118,170 @@ theorem layoutGo_pre_at (ps : List (Nat × Tx)) (sids : List Nat) (len : Nat) (h
       rw [this, List.getElem?_cons_succ]
       exact hget
 
+/-! ### `PrefilledVerifier` establishes `fits` -/
+
+theorem increasing_tail (a : Nat) (l : List Nat) (h : increasing (a :: l) = true) : increasing l = true := by
+  cases l with
+  | nil => rfl
+  | cons b l => simp only [increasing, Bool.and_eq_true] at h; exact h.2
+
+theorem increasing_last (a : Nat) (l : List Nat) (h : increasing (a :: l) = true) :
+    ∃ z, (a :: l).getLast? = some z ∧ a + l.length ≤ z := by
+  induction l generalizing a with
+  | nil => exact ⟨a, rfl, by simp⟩
+  | cons b l ih =>
+    simp only [increasing, Bool.and_eq_true, decide_eq_true_eq] at h
+    obtain ⟨z, hz, hle⟩ := ih b h.2
+    refine ⟨z, ?_, ?_⟩
+    · rw [List.getLast?_cons_cons]; exact hz
+    · simp only [List.length_cons]; omega
+
+/-- strictly increasing indexes, the first at or after the current length, the last below the
+total number of transactions: every gap is non-negative and can be filled -/
+theorem fits_of_increasing (ps : List (Nat × Tx)) (n len : Nat)
+    (hinc : increasing (ps.map (·.1)) = true)
+    (hfirst : ∀ p, ps.head? = some p → len ≤ p.1)
+    (hlast : ∀ z, (ps.map (·.1)).getLast? = some z → z < len + ps.length + n) : fits ps n len := by
+  induction ps generalizing n len with
+  | nil => trivial
+  | cons p ps ih =>
+    obtain ⟨i, t⟩ := p
+    simp only [List.map_cons] at hinc hlast
+    obtain ⟨z, hz, hzle⟩ := increasing_last i _ hinc
+    have hzlt := hlast z hz
+    have hlen : len ≤ i := hfirst (i, t) rfl
+    simp only [List.length_map, List.length_cons] at hzle hzlt
+    refine ⟨hlen, by omega, ?_⟩
+    apply ih
+    · exact increasing_tail i _ hinc
+    · intro p hp
+      cases ps with
+      | nil => simp at hp
+      | cons q ps =>
+        simp only [List.head?_cons, Option.some.injEq] at hp
+        subst hp
+        simp only [List.map_cons, increasing, Bool.and_eq_true, decide_eq_true_eq] at hinc
+        omega
+    · intro z' hz'
+      cases ps with
+      | nil => simp at hz'
+      | cons q ps =>
+        simp only [List.map_cons] at hz hz'
+        rw [List.getLast?_cons_cons] at hz
+        rw [hz'] at hz
+        simp only [Option.some.injEq] at hz
+        subst hz
+        simp only [List.length_cons] at hzlt ⊢
+        omega
+
+/-- what `CompactBlockVerifier` accepts can be laid out: `PrefilledVerifier` (first index 0, last
+index below `txs_len`, strictly increasing) implies `fits` -/
+theorem cbVerify_fits (cb : CB) (h : cbVerify cb = none) : fits cb.prefilled cb.shortIds.length 0 := by
+  unfold cbVerify at h
+  split at h
+  · simp at h
+  · rename_i i0 t0 rest hp
+    split at h
+    · simp at h
+    · rename_i h0
+      split at h
+      · simp at h
+      · rename_i hlast
+        split at h
+        · simp at h
+        · rename_i hinc
+          apply fits_of_increasing
+          · simpa using hinc
+          · intro p _; exact Nat.zero_le _
+          · intro z hz
+            rw [List.getLast?_map] at hz
+            simp only [hz, Option.getD_some, txsLen, ge_iff_le, Nat.not_le] at hlast
+            omega
+
+/-! ### the gap subtraction -/
+
+/-- where the indexes can be honoured no gap subtraction underflows -/
+theorem gapsChecked_of_fits (ps : List (Nat × Tx)) (sids : List Nat) (len : Nat) (hf : fits ps sids.length len) :
+    (gapsChecked ps sids len).isSome = true := by
+  induction ps generalizing sids len with
+  | nil => rfl
+  | cons p ps ih =>
+    obtain ⟨i, t⟩ := p
+    simp only [fits] at hf
+    obtain ⟨hle, hgap, hrest⟩ := hf
+    have htake : (sids.take (i - len)).length = i - len := by rw [List.length_take]; omega
+    have hlen' : len + (sids.take (i - len)).length + 1 = i + 1 := by rw [htake]; omega
+    have hnot : ¬ i < len := by omega
+    simp only [gapsChecked, hnot, if_false, hlen', Option.isSome_map]
+    apply ih
+    simpa using hrest
+
+/-- … and where no subtraction underflows each gap is the true difference: the pushed length
+reaches the declared index exactly when the prefilled transaction is pushed, provided enough
+short ids are left (`take` may return fewer) -/
+theorem gapsChecked_some_le (ps : List (Nat × Tx)) (sids : List Nat) (len : Nat) (gs : List Nat)
+    (h : gapsChecked ps sids len = some gs) : ∀ p, ps.head? = some p → len ≤ p.1 := by
+  intro p hp
+  cases ps with
+  | nil => simp at hp
+  | cons q ps =>
+    obtain ⟨i, t⟩ := q
+    simp only [List.head?_cons, Option.some.injEq] at hp
+    subst hp
+    simp only [gapsChecked] at h
+    split at h
+    · simp at h
+    · simp only; omega
+
+/-- `cbVerify` with the order loop weakened to `nondecreasing` (the `idx0 > idx1` variant): NOT the
+code, only the object of `C16.loose_order_check_underflows` -/
+def cbVerifyLoose (cb : CB) : Option CbErr :=
+  match cb.prefilled with
+  | [] => some .noCellbase
+  | (i0, _) :: _ =>
+    if i0 ≠ 0 then some .noCellbase
+    else if (cb.prefilled.getLast?.map (·.1)).getD 0 ≥ txsLen cb then some .outOfIndex
+    else if ¬ nondecreasing (cb.prefilled.map (·.1)) then some .outOfOrder
+    else if ¬ cb.shortIds.Nodup then some .dupShortIds
+    else if (cb.prefilled.drop 1).any (fun p => cb.shortIds.contains p.2.sid) then some .dupPrefilled
+    else none
+
+/-- the short id of a slot -/
+def Slot.sid? : Slot → Option Nat
+  | .pre _ => none
+  | .short s => some s
+
+def Slot.pre? : Slot → Option Tx
+  | .pre t => some t
+  | .short _ => none
+
+theorem filterMap_sid_short (l : List Nat) : (l.map Slot.short).filterMap Slot.sid? = l := by
+  induction l with
+  | nil => rfl
+  | cons a l ih => simp only [List.map_cons, List.filterMap_cons, Slot.sid?, ih]
+
+theorem filterMap_pre_short (l : List Nat) : (l.map Slot.short).filterMap Slot.pre? = [] := by
+  induction l with
+  | nil => rfl
+  | cons a l ih => simp only [List.map_cons, List.filterMap_cons, Slot.pre?, ih]
+
+theorem layoutGo_shorts (ps : List (Nat × Tx)) (sids : List Nat) (len : Nat) :
+    (layoutGo ps sids len).filterMap Slot.sid? = sids := by
+  induction ps generalizing sids len with
+  | nil => exact filterMap_sid_short sids
+  | cons p ps ih =>
+    obtain ⟨i, t⟩ := p
+    rw [layoutGo, List.filterMap_append, filterMap_sid_short, List.filterMap_cons]
+    simp only [Slot.sid?, ih]
+    exact List.take_append_drop _ _
+
+theorem layoutGo_pres (ps : List (Nat × Tx)) (sids : List Nat) (len : Nat) :
+    (layoutGo ps sids len).filterMap Slot.pre? = ps.map (·.2) := by
+  induction ps generalizing sids len with
+  | nil => exact filterMap_pre_short sids
+  | cons p ps ih =>
+    obtain ⟨i, t⟩ := p
+    rw [layoutGo, List.filterMap_append, filterMap_pre_short, List.filterMap_cons]
+    simp only [Slot.pre?, ih, List.nil_append, List.map_cons]
+
 end CkbVerif.Compact
